@@ -567,6 +567,54 @@ impl Device {
                 }
             }
         }
+        // the data really is kept: a second handle that loads everything
+        // from storage must serve what the specification says
+        if ["Compact", "ChangeFolderPassword", "ChangeAccountPassword"].contains(&act) {
+            let target = reopen_target(&self.root, self.label).await?;
+            let mut fresh = LocalAccount::new_unauthenticated(self.account_id, target).await?;
+            let key: AccessKey = self.password.clone().into();
+            match fresh.sign_in(&key).await {
+                Err(e) => problems.push(format!(
+                    "{}: after {act} the account cannot be signed in from storage: {e}", self.label)),
+                Ok(_) => {
+                    let listed = fresh.list_folders().await?;
+                    for (f, id) in self.folders.clone() {
+                        let Some(summary) = listed.iter().find(|s| s.id() == &id) else {
+                            problems.push(format!("{}: after {act} folder {f} is missing from storage", self.label));
+                            continue;
+                        };
+                        let name = values::name_token(summary.name(), &f);
+                        let flag = if summary.flags().contains(VaultFlags::NO_SYNC) { "marked" } else { "plain" };
+                        let desc = values::desc_token(&fresh.folder_description(&id).await?);
+                        if json!(name) != spec_to["name"][&f]
+                            || json!(flag) != spec_to["flag"][&f]
+                            || json!(desc) != spec_to["desc"][&f]
+                        {
+                            problems.push(format!(
+                                "{}: after {act} folder {f} loaded from storage has name={name} flags={flag} description={desc}, expected name={} flags={} description={}",
+                                self.label, spec_to["name"][&f], spec_to["flag"][&f], spec_to["desc"][&f]
+                            ));
+                        }
+                        for (s, want) in spec_to["sec"][&f].as_object().cloned().unwrap_or_default() {
+                            let got = match self.slots.get(&s) {
+                                Some(sid) => match fresh.read_secret(sid, Some(&id)).await {
+                                    Ok((row, _)) => values::token_of(&row),
+                                    Err(_) => "none".to_string(),
+                                },
+                                None => "none".to_string(),
+                            };
+                            if json!(got) != want {
+                                problems.push(format!(
+                                    "{}: after {act} slot {s} of folder {f} loaded from storage is {got}, expected {want}",
+                                    self.label
+                                ));
+                            }
+                        }
+                    }
+                    let _ = fresh.sign_out().await;
+                }
+            }
+        }
         if act == "ChangeAccountPassword" {
             for old in self.old_passwords.clone() {
                 let target = reopen_target(&self.root, self.label).await?;
@@ -1131,6 +1179,29 @@ pub async fn run_path(
                     }
                     if n + 1 == steps.len() && v.is_empty() && path["corrupt"] != "none" {
                         c16_corruptions(dev, path["corrupt"] == "every", out, &mut v).await?;
+                    }
+                    if !problems.is_empty() && v.is_empty() {
+                        out.count("aborted_paths_state_divergence", 1);
+                        failed = true;
+                    }
+                    v
+                }
+                "C19" => {
+                    let mut v = Vec::new();
+                    if n + 1 == steps.len() && path["upgrade"] != "none" {
+                        crate::archive_world::c19_check(dev, scratch, out, &mut v).await?;
+                    }
+                    if !problems.is_empty() && v.is_empty() {
+                        out.count("aborted_paths_state_divergence", 1);
+                        failed = true;
+                    }
+                    v
+                }
+                "C18" => {
+                    let mut v = Vec::new();
+                    if n + 1 == steps.len() && path["archive"] != "none" {
+                        crate::archive_world::c18_check(dev, scratch, path["archive"] == "thorough", out, &mut v)
+                            .await?;
                     }
                     if !problems.is_empty() && v.is_empty() {
                         out.count("aborted_paths_state_divergence", 1);
